@@ -4,9 +4,9 @@
      execution/ops/combine_outputs.py start_execution       -> combine_loop / combine_step
    The combine output directory is a finite map  name -> Link target | Other  (absent = no
    entry); what the file system answers about other paths (is_dir, emptiness, existence of the
-   place a link leads to) enters as the observation record [fs].  No proofs here. *)
+   contents of the dependencies' directories) enters as the observation record [fs].  No proofs here. *)
 From Coq Require Import List NArith Bool.
-From Conductor Require Import Lib.Str Lib.Path Model.Ident.
+From Conductor Require Import Lib.Str Lib.Path Gen.Generated Model.Ident.
 Import ListNotations.
 Local Open Scope N_scope.
 
@@ -35,54 +35,63 @@ Definition add (n : str) (e : entry) (d : dirmap) : dirmap := (n, e) :: d.
 (* observations of the rest of the file system (all paths absolute, normalised) *)
 Record fs := {
   fs_is_dir : path -> bool;      (* Path.is_dir() *)
-  fs_nonempty : path -> bool;    (* any(True for _ in Path.iterdir()) *)
-  fs_exists : path -> bool       (* existence of the place a link leads to *)
+  fs_nonempty : path -> bool     (* any(True for _ in Path.iterdir()) *)
 }.
 
-(* copy_into.exists(): stat follows links, so a dangling link "does not exist" *)
-Definition entry_exists (f : fs) (out : path) (e : entry) : bool :=
+(* _is_conductor_link(link, dep_id, ctx): the link text [t] of the entry in directory [out] leads
+   (lexically: os.path.normpath of the joined path) to a task output directory of that name --
+   `<name>.task` or `<name>.task.<version>` -- strictly inside the project's output directory
+   [co] = ctx.output_path.  Whether that place exists is not looked at: a link Conductor made stays
+   one when the version it led to is gone (D27). *)
+Definition is_conductor_link (co out : path) (name : str) (t : list str) : bool :=
+  match relative_to co (link_dest out t) with
+  | Some (c :: rel) =>
+    let lastc := last (c :: rel) [] in
+    let dir_name := name ++ cfg_TASK_OUTPUT_DIR_SUFFIX in
+    str_eqb lastc dir_name || starts_with (dir_name ++ [DOT]) lastc
+  | _ => false
+  end.
+
+(* may the loop replace the entry found under a dependency's name?  Only a link Conductor made
+   (D28: any symbolic link used to be replaced); a regular file, a directory or somebody else's
+   link is a conflict *)
+Definition replaceable (co out : path) (name : str) (e : entry) : bool :=
   match e with
-  | Link t => fs_exists f (link_dest out t)
-  | Other => true
+  | Link t => is_conductor_link co out name t
+  | Other => false
   end.
 
 Inductive outcome :=
   | Done
-  | ConflictAt (n : str)        (* CombineOutputFileConflict(output_file=copy_into) *)
-  | FileExistsAt (n : str).     (* FileExistsError from symlink_to: the name is taken by a dangling link *)
+  | ConflictAt (n : str).       (* CombineOutputFileConflict(output_file=copy_into) *)
 
 (* the loop of CombineOutputs.start_execution; on an error the directory is returned as it is
    at that moment (links made for earlier dependencies stay) *)
-Fixpoint combine_loop (f : fs) (out : path) (deps : list (ident * path)) (d : dirmap)
+Fixpoint combine_loop (f : fs) (co out : path) (deps : list (ident * path)) (d : dirmap)
   : outcome * dirmap :=
   match deps with
   | [] => (Done, d)
   | (dep_id, dep_dir) :: rest =>
     if negb (fs_is_dir f dep_dir) || negb (fs_nonempty f dep_dir) then
-      combine_loop f out rest d                                   (* continue *)
+      combine_loop f co out rest d                                (* continue *)
     else
       let copy_into := iname dep_id in
       let relative_to_target := relpath out dep_dir in            (* relpath(dep_dir, copy_into.parent) *)
       match lookup copy_into d with
       | Some e =>
-        if entry_exists f out e then                              (* copy_into.exists() *)
-          match e with
-          | Link _ =>                                             (* is_symlink(): unlink, then link *)
-            combine_loop f out rest (add copy_into (Link relative_to_target) (remove copy_into d))
-          | Other => (ConflictAt copy_into, d)
-          end
-        else
-          (* only a dangling link gets here; symlink_to then fails because the name is taken *)
-          (FileExistsAt copy_into, d)
+        (* is_symlink() and _is_conductor_link(): unlink, then link; anything else: conflict *)
+        if replaceable co out copy_into e then
+          combine_loop f co out rest (add copy_into (Link relative_to_target) (remove copy_into d))
+        else (ConflictAt copy_into, d)
       | None =>
-        combine_loop f out rest (add copy_into (Link relative_to_target) d)
+        combine_loop f co out rest (add copy_into (Link relative_to_target) d)
       end
   end.
 
 (* start_execution: mkdir(parents=True, exist_ok=True), then the loop *)
-Definition combine_step (f : fs) (out : path) (deps : list (ident * path)) (d : option dirmap)
+Definition combine_step (f : fs) (co out : path) (deps : list (ident * path)) (d : option dirmap)
   : outcome * dirmap :=
-  combine_loop f out deps (match d with Some d0 => d0 | None => [] end).
+  combine_loop f co out deps (match d with Some d0 => d0 | None => [] end).
 
 (* planner, Combine branch: dependencies without an output path are dropped *)
 Fixpoint plan_dep_paths (deps : list (ident * option path)) : list (ident * path) :=
@@ -110,12 +119,14 @@ Inductive run_result :=
 
 (* a combine task from its definition to the end of its operation; [deps] pairs every listed
    dependency with the output path the planner obtains for it at that moment *)
-Definition run_combine (f : fs) (out : path) (deps : list (ident * option path)) (d : option dirmap)
+Definition run_combine (f : fs) (co out : path) (deps : list (ident * option path)) (d : option dirmap)
   : run_result :=
   match ctor_check [] (map fst deps) with
   | Some n => DuplicateDepName n
-  | None => let (o, d') := combine_step f out (plan_dep_paths deps) d in Ran o d'
+  | None => let (o, d') := combine_step f co out (plan_dep_paths deps) d in Ran o d'
   end.
 
 (* output directories inside a project rooted at [root] (task_types/base.py:get_output_path) *)
 Definition abs_out (root : path) (i : ident) (v : option N) : path := root ++ out_path i v.
+(* ctx.output_path *)
+Definition cond_out_dir (root : path) : path := root ++ [cfg_OUTPUT_DIR].
